@@ -606,9 +606,11 @@ theorem descriptors_end_to_end_after_handshake (na : Char → Bool) (maxLen : Na
 
 /-- `MethodCallMessage('/a', 'm', signature='hh', body=[7, 7], oobFDs=[])`: two descriptor arguments, the same
 descriptor number twice. -/
-def exFdCall : Msg.Call PyVal :=
-  .methodCall { path := some "/a".toList, member := some "m".toList, signature := some "hh".toList,
-                body := some (.list [.int .plain 7, .int .plain 7]), oobFDs := some [] }
+def exFdArgs : Msg.CallArgs PyVal :=
+  { path := some "/a".toList, member := some "m".toList, signature := some "hh".toList,
+    body := some (.list [.int .plain 7, .int .plain 7]), oobFDs := some [] }
+
+def exFdCall : Msg.Call PyVal := .methodCall exFdArgs
 
 /-- `SignalMessage('/a', 'm', 'a.b')`: no signature, no descriptors. -/
 def exPlainSignal : Msg.Call PyVal :=
@@ -675,6 +677,115 @@ example :
   · rw [i1]; simp [SentFd.body, bvOfFields, bvOf, callRemote, marshalMsg, marshalBVs, marshalBV]
   · rw [i2]; simp [SentFd.body, bvOfFields, callRemote, marshalMsg, marshalBVs]
 
+
+/-- `info_of_constructed` and `sender_sends_constructed` applied to the call `exFdCall` (signature `hh`, body
+`[7, 7]`, `oobFDs=[]`), every premise discharged: the parser finds `unix_fds = 2` and the indices `[0, 1]`; the
+caller's list holds `[7, 7]` afterwards and `sendMessage` makes the transport calls `f7 f7 W`. -/
+example (st' : Msg.St) (m : Msg.Msg PyVal)
+    (h : construct Gen.Message.tables (wireCodec 2) (fun _ => false) Gen.Message.maxMsgLen
+      (Msg.St.init Gen.Message.tables) exFdCall = (st', .ok m)) :
+    infoOfParse Gen.Message.tables m.raw = ⟨some 2, [0, 1]⟩ ∧
+    oobAfter 2 exFdArgs = some [fdVal 7, fdVal 7] ∧
+    sendConstructed (oobAfter 2 exFdArgs) = some [.sendFd 7, .sendFd 7, .write] := by
+  have henc : Spec.encodeAll Code.genAlign (Txdbus.endianOf true) [Ty.basic .h, Ty.basic .h] [Val.int 0, Val.int 1] 0
+      = some [0, 0, 0, 0, 1, 0, 0, 0] := by decide +kernel
+  have i := (info_of_constructed (fun _ => false) Gen.Message.maxMsgLen (Msg.St.init Gen.Message.tables) st' exFdCall m
+    (by decide) [.basic .h, .basic .h] (.list [.int .plain 7, .int .plain 7]) [.int .plain 7, .int .plain 7]
+    [.int 0, .int 1] [7, 7] [0, 0, 0, 0, 1, 0, 0, 0] 2 rfl (by decide) rfl rfl (by decide) rfl exFd_rep henc (by decide) h).1
+  have s := sender_sends_constructed exFdArgs
+    [.basic .h, .basic .h] (.list [.int .plain 7, .int .plain 7]) [.int .plain 7, .int .plain 7]
+    [.int 0, .int 1] [7, 7] [0, 0, 0, 0, 1, 0, 0, 0] 2 rfl (by decide) rfl rfl rfl exFd_rep henc (by decide)
+  refine ⟨by rw [i]; rfl, s.1, ?_⟩
+  rw [s.2]
+  simp [bvOfFields, bvOf, callRemote, marshalMsg, marshalBVs, marshalBV, sendMessage]
+
+/-- `descriptors_end_to_end_after_handshake` instantiated: a client connection that starts in line mode, the
+authenticator reporting success on `BEGIN`; both descriptors of the first message arrive BEFORE the single read
+that carries `BEGIN\r\n` and the two messages.  Every premise is discharged; the theorem yields the two deliveries
+with the arguments `[7, 7]` and `[]`, and an empty queue. -/
+example (st2 : Msg.St) (m1 m2 : Msg.Msg PyVal)
+    (h1 : construct Gen.Message.tables (wireCodec 2) (fun _ => false) Gen.Message.maxMsgLen
+      (Msg.St.init Gen.Message.tables) exFdCall = (⟨2⟩, .ok m1))
+    (h2 : construct Gen.Message.tables (wireCodec 2) (fun _ => false) Gen.Message.maxMsgLen ⟨2⟩ exPlainSignal
+      = (st2, .ok m2)) :
+    (recvRun okAuth (infoOfParse Gen.Message.tables) ⟨St.init true (), []⟩
+        ([.fd 7, .fd 7] ++ .read ((beginLine ++ [13, 10]) ++ (m1.raw ++ m2.raw)) :: [])).2.map
+          (fun d => (d.raw, d.args)) = [(m1.raw, [some 7, some 7]), (m2.raw, [])] ∧
+    (recvRun okAuth (infoOfParse Gen.Message.tables) ⟨St.init true (), []⟩
+        ([.fd 7, .fd 7] ++ .read ((beginLine ++ [13, 10]) ++ (m1.raw ++ m2.raw)) :: [])).1.queue = [] := by
+  have hx1 : SentFdOK Gen.Message.tables (fun _ => false) Gen.Message.maxMsgLen 2
+      ⟨m1, [7, 7], [.basic .h, .basic .h], [.int 0, .int 1], [.int .plain 7, .int .plain 7]⟩ :=
+    ⟨Msg.St.init Gen.Message.tables, ⟨2⟩, exFdCall, by decide, h1,
+      Or.inr ⟨.list [.int .plain 7, .int .plain 7], [0, 0, 0, 0, 1, 0, 0, 0], rfl,
+        (by decide : renderAll [Ty.basic .h, Ty.basic .h] ≠ []), rfl,
+        (by decide : allWF [Ty.basic .h, Ty.basic .h] = true), rfl,
+        by simp [Code.KeysOKList, Code.KeysOK],
+        (by decide +kernel : Spec.encodeAll Code.genAlign (Txdbus.endianOf true) [Ty.basic .h, Ty.basic .h]
+          [Val.int 0, Val.int 1] 0 = some [0, 0, 0, 0, 1, 0, 0, 0]),
+        (by decide : depthAll [Val.int 0, Val.int 1] ≤ 2), Or.inl ⟨rfl, exFd_rep⟩⟩⟩
+  have hx2 : SentFdOK Gen.Message.tables (fun _ => false) Gen.Message.maxMsgLen 2 ⟨m2, [], [], [], []⟩ :=
+    ⟨⟨2⟩, st2, exPlainSignal, by decide, h2, Or.inl ⟨Or.inl rfl, Or.inl rfl, rfl, rfl, rfl, rfl⟩⟩
+  let x1 : SentFd := ⟨m1, [7, 7], [.basic .h, .basic .h], [.int 0, .int 1], [.int .plain 7, .int .plain 7]⟩
+  let x2 : SentFd := ⟨m2, [], [], [], []⟩
+  have hall : ∀ x ∈ [x1, x2], SentFdOK Gen.Message.tables (fun _ => false) Gen.Message.maxMsgLen 2 x := by
+    intro x hx
+    simp only [List.mem_cons, List.not_mem_nil, or_false] at hx
+    rcases hx with rfl | rfl <;> assumption
+  obtain ⟨r1, f1, _⟩ := toMsg_fds Gen.Message.tables _ _ _ x1 hx1
+  obtain ⟨r2, f2, _⟩ := toMsg_fds Gen.Message.tables _ _ _ x2 hx2
+  have hlen1 : 16 ≤ m1.raw.length :=
+    (wellFormed_of_sentFd _ Msg.genTables_ok _ _ _ (by decide) x1 hx1).1
+  -- the environment: `BEGIN\r\n` is 7 bytes; the descriptors are there before the only read
+  have hc : ConsistentAfter (Spec.unlines ([] ++ [beginLine])).length ([x1, x2].map SentFd.toMsg)
+      ([.fd 7, .fd 7] ++ .read ((beginLine ++ [13, 10]) ++ (m1.raw ++ m2.raw)) :: []) := by
+    have hb : bytesUpTo ([x1, x2].map SentFd.toMsg) 2 = m1.raw ++ m2.raw := by
+      simp [bytesUpTo, r1, r2, x1, x2]
+    have hf : fdsUpTo ([x1, x2].map SentFd.toMsg) 2 = [7, 7] := by
+      simp [fdsUpTo, f1, f2, x1, x2]
+    refine ⟨?_, ?_, ?_⟩
+    · show List.drop 7 (bytesOf _) <+: bytesUpTo _ 2
+      rw [hb]
+      simp [bytesOf, beginLine]
+    · show fdsOf _ <+: fdsUpTo _ 2
+      rw [hf]; simp [fdsOf]
+    · intro p hp k hk hle
+      have hk2 : k ≤ 2 := by simpa using hk
+      have hfk : (fdsUpTo ([x1, x2].map SentFd.toMsg) k).length ≤ 2 := by
+        rcases (by omega : k = 0 ∨ k = 1 ∨ k = 2) with rfl | rfl | rfl
+        · simp [fdsUpTo]
+        · simp [fdsUpTo, f1, x1]
+        · rw [hf]; simp
+      rcases p with _ | ⟨e1, _ | ⟨e2, _ | ⟨e3, p⟩⟩⟩
+      · cases k with
+        | zero => simp [fdsUpTo]
+        | succ k =>
+          exfalso
+          simp only [bytesOf, List.length_nil] at hle
+          simp [Spec.unlines, beginLine] at hle
+      · obtain ⟨t, ht⟩ := hp
+        simp at ht
+        obtain ⟨rfl, _⟩ := ht
+        simp [bytesOf, Spec.unlines, beginLine] at hle
+      · obtain ⟨t, ht⟩ := hp
+        simp at ht
+        obtain ⟨rfl, rfl, _⟩ := ht
+        simp [bytesOf, Spec.unlines, beginLine] at hle
+      · obtain ⟨t, ht⟩ := hp
+        simp at ht
+        obtain ⟨rfl, rfl, rfl, hp'⟩ := ht
+        have hpn : p = [] := hp'.1
+        subst hpn
+        simpa [fdsOf] using hfk
+  obtain ⟨_, d2, _, d4⟩ := descriptors_end_to_end_after_handshake (fun _ => false) Gen.Message.maxMsgLen (by decide) 2
+    okAuth [x1, x2] (St.init true ()) [] beginLine () () [.fd 7, .fd 7] [] (beginLine ++ [13, 10]) (m1.raw ++ m2.raw)
+    (Or.inl rfl) rfl rfl rfl rfl (by intro l hl; simp at hl; subst hl; decide) rfl rfl (by decide) hall hc
+  have hall_bytes : bytesOf ([Ev.fd 7, .fd 7] ++ .read ((beginLine ++ [13, 10]) ++ (m1.raw ++ m2.raw)) :: []) =
+      Spec.unlines ([] ++ [beginLine]) ++ ([x1, x2].map (·.msg.raw)).flatten := by
+    simp [bytesOf, Spec.unlines, x1, x2]
+  obtain ⟨e1, _, e3⟩ := d4 hall_bytes
+  refine ⟨?_, e3⟩
+  rw [d2, e1]
+  rfl
 
 end FdsE2E
 
